@@ -211,13 +211,15 @@ CLAIMED.update({
              "each, ascending, and that the item at an index is read from the pre-join world (closed form of the loop); item_is_lookup / maybe_some_iff: components equal the direct lookup, .maybe() is Some iff member; write_frame / "
              "join_frame / join_writes_visible / join_maybe_writes_visible / join_drain_removes: a write through an item changes that index of that store only; lend_same_items / lend_get_iff / lend_get_unchecked_iff: the lending "
              "iterator visits the same list and get(e) is Some iff e alive and in the mask. Level B (level_b_next / level_b_enumerates / level_b_bitset / level_b_world / level_b_join_keys): hibitset's BitIter over the four-layer "
-             "representation - BitSets built by any add/remove history, the And/Or/Not/Xor/All composites and the BitAnd tree of the tuple - yields exactly the Level-A key list. The spec (filter of candidate indices by per-member "
+             "representation - BitSets built by any add/remove history, the And/Or/Not/Xor/All composites and the BitAnd tree of the tuple - yields exactly the Level-A key list; Level C (level_c_words / level_c_index / level_c_next / level_c_enumerates / level_c_bitset_ops / level_c_composites / level_c_bitset / level_c_join_keys): the same for 64-bit words with the "
+             "Rust word operations (the word <-> position-list correspondence is a theorem, not an assumption). The spec (filter of candidate indices by per-member "
              "membership + direct lookups, recomputed independently of the model) runs as monitor on the real crate's transcripts; the model (Level A and B) is compared item by item on 56 statically typed shapes over random worlds "
              "up to 3*10^5 entities and raw bit sets up to 2^24-1.",
         technique="Lean 4 proof (closed form of the join loop; invariant-free refinement of hibitset's BitIter) on a hand-written two-level model; differential correspondence check on statically typed join shapes + independent executable spec monitor",
-        design="7/C06", note="Theorems are about the hand-written Lean model (lean/SpecsModel/Join/Model.lean, HiBitSet.lean); tied to /repo's working tree by the differential run only. hibitset is modelled at two levels; the residual "
-             "assumption is the abstraction of a 64-bit word as the ascending list of its set-bit positions (trailing_zeros = head, mask arithmetic = filter, prefix|bit = prefix+bit), exercised on masks straddling 63/64, 4095/4096, "
-             "262143/262144 and indices up to 2^24-1; Vec growth of BitSet layers and AtomicBitSet atomics are not modelled. Storage-kind internals are abstracted to mask+values (C04). Exclusive borrows of one tuple are pairwise "
+        design="7/C06", note="Theorems are about the hand-written Lean model (lean/SpecsModel/Join/Model.lean, HiBitSet.lean); tied to /repo's working tree by the differential run only. hibitset is modelled at three levels: "
+             "A sets, B four layers of ascending position lists, C four layers of 64-bit words with the Rust word operations transcribed literally (trailing_zeros, mask arithmetic, shifts, Row/offset arithmetic, BitIter::next, "
+             "BitSet::add/remove/contains, the ops.rs composites); level_c_* theorems prove C refines B refines A, so the former word<->position-list assumption is now a theorem. Still trusted: Rust's primitive integer operations read as Nat "
+             "operations below 2^64; Vec growth of BitSet layers (a word beyond len reads as 0), the bool results of add/remove and AtomicBitSet atomics are not modelled. Exercised on masks straddling 63/64, 4095/4096, 262143/262144 and indices up to 2^24-1. Storage-kind internals are abstracted to mask+values (C04). Exclusive borrows of one tuple are pairwise "
              "distinct (Rust borrow checker) - hypothesis MutDistinct of the write-back theorems. 64-bit target, indices < 2^24. Trusted: Lean kernel, axioms propext/Classical.choice/Quot.sound, the harness, the line protocol, bin/check."),
     "C07": dict(
         text="Lean theorems, for every world, every par-admissible member list, every visitor and EVERY split tree: C07.par_perm_seq - leaf by leaf the parallel join delivers the items of exactly its own keys and all leaves together "
@@ -225,12 +227,12 @@ CLAIMED.update({
              "interleaving of the leaf executions the items are a permutation of the sequential ones and the post-state (kind, mask, event channel, every value of every store) is the sequential post-state, because writes at distinct "
              "indices commute for the kinds of the DistinctStorage table (table_kinds_are_quiet; a kernel-checked counterexample shows FlaggedStorage must stay out). Level A takes the key splitter as a parameter with contract SplitOK; "
              "Level B (level_b_splitOK / level_b_leaves / level_b_par_perm_seq) proves the contract for the model of hibitset's BitProducer::split (three levels, descend on a single bit, average_ones arbitrary) on every producer "
-             "reachable from a fresh iterator, end to end over the layered tuple mask. Correspondence: hook H3 drives explicit split trees (all 677 trees of depth <= 4, random trees to depth 12), leaf contents compared exactly with "
+             "reachable from a fresh iterator, end to end over the layered tuple mask; Level C (level_c_average_ones / level_c_split / level_c_splitOK / level_c_leaves / level_c_par_perm_seq) does it for 64-bit words with the real average_ones. Correspondence: hook H3 drives explicit split trees (all 677 trees of depth <= 4, random trees to depth 12), leaf contents compared exactly with "
              "the Level-B model; real par_join().for_each/map/collect on rayon pools of 1,2,3,8,16,64,128 threads; capability table diff.",
         technique="Lean 4 proof (permutation + commutation over arbitrary split trees and schedules; splitter contract proved for the BitProducer model) on a hand-written model; differential check with deterministic split-tree enumeration (hook H3), rayon pool sampling, type-level capability probes",
         design="7/C07", note="Theorems are about the hand-written Lean model (lean/SpecsModel/Join/ParJoin.lean, HiBitSet.lean, Model.lean); tied to /repo by the differential run only. rayon is a parameter (arbitrary finite split tree, "
-             "arbitrary schedule at item granularity: one get+visit is atomic); the real work-stealing scheduler is only sampled. hibitset modelled at two levels, residual assumption word <-> ascending position list; average_ones is "
-             "arbitrary in the theorems, its real value is only checked by correspondence. The Rust memory model below item granularity is the DistinctStorage contract itself and is not modelled. Needs hook H3 "
+             "arbitrary schedule at item granularity: one get+visit is atomic); the real work-stealing scheduler is only sampled. hibitset modelled at three levels (sets / position lists / 64-bit words; level_c_split, level_c_average_ones, level_c_par_perm_seq: the word-level BitProducer::split with the REAL average_ones "
+             "(proved overflow-free, result < 64, None exactly on words with at most one bit) refines the list-level split, whose contract SplitOK is proved for any average_ones). The Rust memory model below item granularity is the DistinctStorage contract itself and is not modelled. Needs hook H3 "
              "(hooks/H3_par_join_drive.patch, committed in /repo under cfg specs_verif) for the split-tree part. 64-bit target, indices < 2^24. Trusted: Lean kernel, axioms propext/Classical.choice/Quot.sound, the harness, the line protocol, bin/check."),
 })
 checks = []
